@@ -393,6 +393,20 @@ class _Sim(object):
                     else:
                         target.mark_skipped()
                     ev["did"].append(["skip_element", act["how"]])
+            elif a == "use_matcher":
+                from behave import use_step_matcher
+                use_step_matcher(act["name"])
+                ev["did"].append(["use_matcher", act["name"]])
+                self.fire("use_step_matcher_in_environment")
+            elif a == "install_cleanup_handler":
+                sim_ = self
+                ret_ = act.get("returns")
+
+                def on_cleanup_error(ctx, cleanup_func, exception, _ret=ret_):
+                    sim_.fire("user_cleanup_error_handler_called")
+                    return _ret
+                context.on_cleanup_error = on_cleanup_error
+                ev["did"].append(["install_cleanup_handler", ret_])
             elif a == "skip_container":
                 # user code decides mid-run to skip (the rest of) the enclosing feature / rule
                 try:
@@ -938,7 +952,14 @@ def _table_jsonable(t):
     if t is None:
         return None
     try:
-        return {"headings": list(t.headings), "rows": [list(r.cells) for r in t.rows]}
+        d = {"headings": list(t.headings), "rows": [list(r.cells) for r in t.rows]}
+        # every row answers by name with the table's (current) headings
+        bad = [k for k, r in enumerate(t.rows) if list(r.headings) != list(t.headings) or
+               (len(r.cells) == len(t.headings) and len(set(t.headings)) == len(t.headings) and
+                [r[h] for h in t.headings] != list(r.cells))]
+        if bad:
+            d["rows_by_name_disagree"] = bad[:3]
+        return d
     except Exception:
         return repr(t)
 
